@@ -6,7 +6,7 @@ U30 = 1073741824
 OPQ_MODELS = {
     'datetime': {'year': 'int', 'month': 'int', 'day': 'int', 'hour': 'int', 'minute': 'int', 'second': 'int', 'microsecond': 'int',
                  'astimezone': 'method', '__isinstance__': {'datetime': True}},
-    'float': {'__isinstance__': {'float': True, 'Number': True, 'numbers.Number': True}},
+    'float': {'__isinstance__': {'float': True, 'Number': True, 'numbers.Number': True}, 'is_integer': 'method:bool'},
 }
 
 ITEM_REF_MODEL = {'cls': 'EFLRItem', 'fields': {'_origin_reference': 'int?', '_copy_number': 'int', 'name': 'str',
